@@ -164,7 +164,8 @@ def disc_scratch(check):
                     if m is not None and m is not f:
                         collect(m, depth + 1)
         collect(rhs)
-        bad = sorted((a, ln) for a, ln in wr if a in ("model", "mesh", "num", "numflux", "bcL", "bcR", "_bclist", "neq", "nelem"))
+        cfg = {"model", "mesh", "num", "numflux", "bcL", "bcR", "_bclist", "neq", "nelem"} | {a for a, b in proj.ctor_summary(c).items() if b[0] == "param"}
+        bad = sorted((a, ln) for a, ln in wr if a in cfg)
         if bad:
             check.violation("DISC-SCRATCH", qn + ".rhs", "rhs() overwrites configuration attribute self.%s (line %d)" % bad[0], rhs.loc(), key="cfg-" + bad[0][0])
 
